@@ -180,7 +180,7 @@ func runHdr(_ *testing.T, p hdrPlan) vk.Result {
 	// flag <=> something dropped
 	dropped := len(out) < nLoggable
 	if flag != dropped {
-		return trailerSig(p, vk.Bad("payload_truncated=%v but %d of %d loggable entries are present (kind %d, limit %d)", flag, len(out), nLoggable, p.Kind, p.Limit))
+		return (vk.Bad("payload_truncated=%v but %d of %d loggable entries are present (kind %d, limit %d)", flag, len(out), nLoggable, p.Kind, p.Limit))
 	}
 	// permutation-consistent longest-prefix oracle
 	var matchedOrder []string
@@ -199,7 +199,7 @@ func runHdr(_ *testing.T, p hdrPlan) vk.Result {
 		return false
 	})
 	if !ok {
-		return trailerSig(p, vk.Bad("log entry %v (truncated=%v) is not the longest fitting prefix of the loggable entries in any key order: kind %d, limit %d, metadata %v", out, flag, p.Kind, p.Limit, p.MD))
+		return (vk.Bad("log entry %v (truncated=%v) is not the longest fitting prefix of the loggable entries in any key order: kind %d, limit %d, metadata %v", out, flag, p.Kind, p.Limit, p.MD))
 	}
 	// classes / non-trivial
 	if flag {
@@ -265,16 +265,6 @@ func runHdr(_ *testing.T, p hdrPlan) vk.Result {
 	}
 	_ = matchedOrder
 	return res
-}
-
-// trailerSig attaches the known-finding signature to violations of the
-// truncation clauses on ServerTrailer entries (Build does not truncate trailer
-// metadata at all); nothing else is tolerated.
-func trailerSig(p hdrPlan, r vk.Result) vk.Result {
-	if p.Kind == 2 {
-		r.Sig = "c55.trailer_metadata_not_truncated"
-	}
-	return r
 }
 
 // ---------------------------------------------------------------- generators
@@ -400,7 +390,7 @@ func TestVerifC55Header(t *testing.T) {
 }
 
 func TestVerifC55Trailer(t *testing.T) {
-	vk.Check(t, vk.Unit[hdrPlan]{ID: "C55", Name: "trailer", Rule: "ServerTrailer entries (same oracle; truncation mismatches carry signature c55.trailer_metadata_not_truncated); " + hdrRule, Gen: genHdr([]int{2}), Run: runHdr})
+	vk.Check(t, vk.Unit[hdrPlan]{ID: "C55", Name: "trailer", Rule: "ServerTrailer entries (same oracle); " + hdrRule, Gen: genHdr([]int{2}), Run: runHdr})
 }
 
 // ---------------------------------------------------------------- messages
